@@ -6,6 +6,10 @@ LEVEL_NOTE = ("Trusted base: CPython 3.12 (/venv/bin/python), eval/tokenize/frac
               "oracles under /verif/vf, and that sfc_models imports from the /repo working tree (asserted at "
               "start, recorded in evidence).")
 CLAIMS = {
+ 'C15': ("one-further-step monitor after accepted steady states (real SolveStep on a deep copy, exogenous frozen), snapshot equality of solver inputs",
+         "Held on K observed searches over stable/unit/unstable/oscillating linear lag systems with positive, negative and sign-changing fixed points: an accepted state moves by <= 5 tolerances in one further real step; failures raise only NoEquilibriumError/ValueError; parser lists, exogenous series and horizon unchanged.", "3/C15"),
+ 'C17': ("fresh-subprocess vs long-history bitwise differential with logging/tracing/re-solve settings; re-parse key-set check",
+         "Held on K observed histories: series of a target computed after drawn in-process histories (other builds, failures, unfinished builds, interleaved construction, registered logs, tracing, re-solves) are bitwise equal to a fresh interpreter's; a re-parsed solver reports exactly the new block.", "3/C17"),
  'C11': ("sweep counting by an instrumented user function, state-after-failure comparison with a cut reference run, contraction=>success, exhaustive reserved-name enumeration, ill-formed declarations",
          "Held on K observed executions: hostile systems switched on at a drawn period fail loudly within cap+1 sweeps leaving earlier periods intact; contractions (factor <= 0.8) solve within the default cap; all reserved names and ill-formed declarations are rejected before any series exists (name list enumerated completely).", "3/C11"),
  'C03': ("differential execution reduction on/off on the same text: key sets and every value for k>=0 (1e-12 acyclic, 1e-8 cyclic)",
